@@ -72,6 +72,9 @@ pub enum StdoutKind {
     /// takes nothing while the process runs (what a busy Node.js / ssh parent leaves behind):
     /// write(2) fails with EAGAIN. The captured stdout is what the process managed to add.
     FullNonBlockingPipe,
+    /// Standard output is a connected AF_UNIX stream socket whose peer reads exactly k bytes and
+    /// then closes (ksh93 pipelines, socat, inetd-style services): the next write fails with EPIPE.
+    SocketCloseAfter(usize),
 }
 
 #[derive(Clone, Debug)]
@@ -363,6 +366,7 @@ fn run_inner(r: Run, arg0: Option<&str>) -> ProcOut {
     let mut out_file: Option<PathBuf> = None;
     // (read end, number of filler bytes) of a pre-filled non-blocking pipe
     let mut full_pipe: Option<(File, usize)> = None;
+    let mut sock_peer: Option<std::os::unix::net::UnixStream> = None;
     match SIG_ENV.with(|c| c.get()) {
         SigEnv::Default => {}
         env => {
@@ -397,6 +401,13 @@ fn run_inner(r: Run, arg0: Option<&str>) -> ProcOut {
                 Err(e) => return ProcOut { status: Status::SpawnError(e.to_string()), stdout: vec![], stderr: vec![] },
             }
         }
+        StdoutKind::SocketCloseAfter(_) => match std::os::unix::net::UnixStream::pair() {
+            Ok((a, b)) => {
+                cmd.stdout(Stdio::from(std::os::fd::OwnedFd::from(b)));
+                sock_peer = Some(a);
+            }
+            Err(e) => return ProcOut { status: Status::SpawnError(e.to_string()), stdout: vec![], stderr: vec![] },
+        },
         StdoutKind::FullNonBlockingPipe => {
             let mut fds = [0 as RawFd; 2];
             if unsafe { libc::pipe2(fds.as_mut_ptr(), libc::O_CLOEXEC) } != 0 {
@@ -560,6 +571,23 @@ fn run_inner(r: Run, arg0: Option<&str>) -> ProcOut {
             }
             buf.truncate(got);
             stdout = buf;
+            drop(so); // the consumer goes away
+            let _ = gate_tx.send(());
+        }
+        StdoutKind::SocketCloseAfter(k) => {
+            let mut so = sock_peer.take().unwrap();
+            let mut buf = vec![0u8; *k];
+            let mut got = 0;
+            while got < *k {
+                match so.read(&mut buf[got..]) {
+                    Ok(0) => break,
+                    Ok(n) => got += n,
+                    Err(_) => break,
+                }
+            }
+            buf.truncate(got);
+            stdout = buf;
+            let _ = so.shutdown(std::net::Shutdown::Both);
             drop(so); // the consumer goes away
             let _ = gate_tx.send(());
         }
